@@ -281,52 +281,15 @@ theorem sim_isReadonly (h : Ctx env t) (p : Str) (hnl : ∀ a, resolve env t p =
   simp only [Stdfs.step]
   exact sim_statBool h p _ hnl
 
-/-- `is_dir` / `is_file`: the raw string goes to the kernel; domain = the two resolutions agree -/
-theorem sim_isDir (p : Str) (hraw : rawOk env t p = true) :
+theorem sim_isDir (h : Ctx env t) (p : Str) :
     Sim (Stdfs.step env t (.isDir p)) (boolQ env t p (isDir t)) := by
   simp only [Stdfs.step]
-  unfold boolQ rawOk at *
-  cases hr : resolve env t p with
-  | ok a =>
-    rw [hr] at hraw; simp only [decide_eq_true_eq] at hraw
-    refine sim_same ?_
-    rw [rmoe_ok]; congr 1
-    unfold isDirRaw isDir
-    rw [← hraw]
-    cases lstatRaw t p <;> rfl
-  | err e =>
-    rw [hr] at hraw; simp only [decide_eq_true_eq] at hraw
-    refine sim_same ?_
-    rw [rmoe_ok]; congr 1
-    unfold isDirRaw
-    cases hl : lstatRaw t p with
-    | error _ => rfl
-    | ok n => rw [hl] at hraw; cases hraw
-  | panic => exact sim_unspec _ _
-  | hang => exact sim_unspec _ _
+  exact sim_boolK h p _ _ (fun a _ => isDirK_eq h.wf a)
 
-theorem sim_isFile (p : Str) (hraw : rawOk env t p = true) :
+theorem sim_isFile (h : Ctx env t) (p : Str) :
     Sim (Stdfs.step env t (.isFile p)) (boolQ env t p (isFile t)) := by
   simp only [Stdfs.step]
-  unfold boolQ rawOk at *
-  cases hr : resolve env t p with
-  | ok a =>
-    rw [hr] at hraw; simp only [decide_eq_true_eq] at hraw
-    refine sim_same ?_
-    rw [rmoe_ok]; congr 1
-    unfold isFileRaw isFile
-    rw [← hraw]
-    cases lstatRaw t p <;> rfl
-  | err e =>
-    rw [hr] at hraw; simp only [decide_eq_true_eq] at hraw
-    refine sim_same ?_
-    rw [rmoe_ok]; congr 1
-    unfold isFileRaw
-    cases hl : lstatRaw t p with
-    | error _ => rfl
-    | ok n => rw [hl] at hraw; cases hraw
-  | panic => exact sim_unspec _ _
-  | hang => exact sim_unspec _ _
+  exact sim_boolK h p _ _ (fun a _ => isFileK_eq h.wf a)
 
 /-! ### links -/
 
@@ -355,9 +318,7 @@ theorem sim_readlink (h : Ctx env t) (p : Str) :
     | dir => exact sim_err _ _ (TEquiv.refl _)
     | file => exact sim_err _ _ (TEquiv.refl _)
 
-/-- `readlink_abs`: covered when the path is missing or a link (a non-link is finding S3) -/
-theorem sim_readlinkAbs (h : Ctx env t) (p : Str)
-    (hdom : ∀ a n, resolve env t p = .ok a → get t a = some n → isLinkKind n.kind = true) :
+theorem sim_readlinkAbs (h : Ctx env t) (p : Str) :
     Sim (Stdfs.step env t (.readlinkAbs p)) (withPath env t p fun a =>
       match get t a with
       | some n => (match n.kind, n.target with
@@ -372,14 +333,19 @@ theorem sim_readlinkAbs (h : Ctx env t) (p : Str)
     cases hg : get t a with
     | none => rw [entryFrom_missing h hr hg]; exact sim_err _ _ (TEquiv.refl _)
     | some n =>
-      have hl := hdom a n hr hg
       cases hk : n.kind with
       | link b =>
         obtain ⟨alt, m, tg, h1, h2, _, he⟩ := entryFrom_link h hr hg hk
         rw [he]; simp only [h1, hk, if_true]
         exact sim_same (by simp [h2])
-      | dir => simp [hk, isLinkKind] at hl
-      | file => simp [hk, isLinkKind] at hl
+      | dir =>
+        rw [entryFrom_nonlink h hr hg (by simp [hk, isLinkKind])]
+        simp only [hk, Bool.false_eq_true, if_false]
+        exact sim_err _ _ (TEquiv.refl _)
+      | file =>
+        rw [entryFrom_nonlink h hr hg (by simp [hk, isLinkKind])]
+        simp only [hk, Bool.false_eq_true, if_false]
+        exact sim_err _ _ (TEquiv.refl _)
   | err e =>
     have : entryFrom env t p = .err e := by unfold entryFrom; rw [absK_eq h.cwd, hr]
     rw [this]; exact sim_err _ _ (TEquiv.refl _)
